@@ -4,6 +4,8 @@
 //	wm   : wmark.Watermarker over a scripted AdvanceTime / CurrentWatermark history (timestamps pass through
 //	       Timestamp.AsTime / timestamppb.New exactly as in the source runner)
 //	pipe : the source runner's output stage (real sendOperatorEvent + real operator cluster) with recording operators
+//	run  : a real sourcerunner.SourceRunner (Start, HandleDeploy, HandleAssignSplits) reading a scripted source to its
+//	       end with a scripted KeyEventBatch handler and recording operators
 //	reg  : operator.TimerRegistry over a real TimerStore on a real dkv.DB (memory filesystem)
 //	op   : a real operator.Operator (memory:// storage) with a scripted recording handler
 package main
@@ -24,7 +26,9 @@ import (
 
 	"google.golang.org/protobuf/types/known/timestamppb"
 	"reduction.dev/reduction-protocol/handlerpb"
+	"reduction.dev/reduction-protocol/jobconfigpb"
 	"reduction.dev/reduction/batching"
+	"reduction.dev/reduction/connectors"
 	"reduction.dev/reduction/connectors/embedded"
 	"reduction.dev/reduction/dkv"
 	"reduction.dev/reduction/dkv/storage"
@@ -49,6 +53,7 @@ func (eng) CoqRun(mode string) string      { return "Check_wmark.run" }
 func (eng) Rule(mode string) string {
 	return "wm: real Watermarker over random AdvanceTime/CurrentWatermark histories (ordered, shuffled, duplicate, pre-epoch, zero-time, pre-year-1, nil and denormal protobuf timestamps; allowed lateness 0 / small / hours / MaxInt64 / negative). " +
 		"pipe: real sendOperatorEvent + operator cluster, 1-4 recording operators, keyed placeholders with 0-3 events, watermark and barrier placeholders in random order. " +
+		"run: real SourceRunner (Start/HandleDeploy/HandleAssignSplits) reading a scripted source to its end through a slow scripted KeyEventBatch, 1-4 recording operators. " +
 		"reg: real TimerRegistry on a real DKV (memory fs), 0-4 configured runners, random interleavings of AdvanceWatermark (known / unknown senders, regressing, nil, pre-epoch, zero-time watermarks) and SetTimer. " +
 		"op: real Operator with a scripted recording handler, batch size 1-3, keyed events carrying timers and watermark messages from several senders. " +
 		"Non-trivial: the history contains at least two watermark observations and (reg/op) at least two distinct senders or a fired timer; distinct by hash of the case."
@@ -89,6 +94,7 @@ type opJ struct {
 	Key    int    `json:"key,omitempty"`
 	ID     int    `json:"id,omitempty"`
 	Timers []tsJ  `json:"timers,omitempty"`
+	Raws   [][]evJ `json:"raws,omitempty"` // run: one ReadEvents batch; each raw event keys into these events
 }
 
 func coqTime(t time.Time) string { // instant as a Z expression, exact for any time.Time
@@ -335,11 +341,17 @@ func genOp(r *hx.Rand, i int) *hx.Case {
 		if r.Chance(1, 2) {
 			id++
 			nt := r.Intn(4)
+			key := r.Intn(7)
 			timers := []tsJ{}
 			for j := 0; j < nt; j++ {
-				timers = append(timers, genTimer(r, base, spread))
+				// Timers of different keys never share a timestamp (nanos = key mod 8): the order in which equal
+				// timestamps fire is not fixed by the code, and with batches > 1 it would decide which expired
+				// timer is still waiting in the batch - an observable the property does not speak about.
+				t := genTimer(r, base, spread)
+				t.N = t.N - t.N%8 + int32(key)
+				timers = append(timers, t)
 			}
-			ops = append(ops, hx.Op(opJ{K: "ev", S: genSender(r, ids), ID: id, Key: r.Intn(7), Timers: timers}))
+			ops = append(ops, hx.Op(opJ{K: "ev", S: genSender(r, ids), ID: id, Key: key, Timers: timers}))
 		} else {
 			t := genWmMsg(r, base, spread)
 			ops = append(ops, hx.Op(opJ{K: "wm", S: genSender(r, ids), Ts: &t}))
@@ -348,10 +360,38 @@ func genOp(r *hx.Rand, i int) *hx.Case {
 	return &hx.Case{Name: fmt.Sprintf("op-%d", i), Params: map[string]any{"mode": "c11", "kind": "op", "ids": ids, "m": m}, Ops: ops}
 }
 
+func genRun(r *hx.Rand, i int) *hx.Case {
+	nops := r.Range(1, 4)
+	kgc := r.Range(nops, 64)
+	bs := r.Range(1, 4)
+	nb := r.Range(1, 6)
+	base := int64(r.Intn(2000000000))
+	id := 0
+	var ops []json.RawMessage
+	for b := 0; b < nb; b++ {
+		nraw := r.Range(0, 5)
+		raws := [][]evJ{}
+		for k := 0; k < nraw; k++ {
+			ne := r.Intn(3)
+			if r.Chance(1, 2) {
+				ne = 1
+			}
+			evs := []evJ{}
+			for e := 0; e < ne; e++ {
+				id++
+				evs = append(evs, evJ{Key: fmt.Sprintf("key-%d", r.Intn(12)), ID: id, Ts: genTs(r, base, 30)})
+			}
+			raws = append(raws, evs)
+		}
+		ops = append(ops, hx.Op(opJ{K: "rb", Raws: raws}))
+	}
+	return &hx.Case{Name: fmt.Sprintf("run-%d", i), Params: map[string]any{"mode": "c11", "kind": "run", "nops": nops, "kgc": kgc, "bs": bs}, Ops: ops}
+}
+
 func (eng) Generate(mode, tier string, r *hx.Rand) []*hx.Case {
-	nwm, npipe, nreg, nop := 500, 200, 500, 150
+	nwm, npipe, nreg, nop, nrun := 500, 200, 500, 150, 60
 	if tier == "thorough" {
-		nwm, npipe, nreg, nop = 6000, 2500, 6000, 2000
+		nwm, npipe, nreg, nop, nrun = 6000, 2500, 6000, 2000, 600
 	}
 	var cs []*hx.Case
 	for i := 0; i < nwm; i++ {
@@ -365,6 +405,9 @@ func (eng) Generate(mode, tier string, r *hx.Rand) []*hx.Case {
 	}
 	for i := 0; i < nop; i++ {
 		cs = append(cs, genOp(r, i))
+	}
+	for i := 0; i < nrun; i++ {
+		cs = append(cs, genRun(r, i))
 	}
 	return cs
 }
@@ -387,6 +430,8 @@ func (e eng) Execute(mode string, c *hx.Case) (*hx.Result, error) {
 		f = execReg
 	case "op":
 		f = execOp
+	case "run":
+		f = execRun
 	default:
 		return nil, fmt.Errorf("unknown kind %q", kind)
 	}
@@ -500,6 +545,7 @@ type recOp struct {
 	mu     sync.Mutex
 	events []string // Gallina sev terms
 	raw    []string
+	complete int
 }
 
 func (o *recOp) HandleEventBatch(ctx context.Context, batch []*workerpb.Event) error {
@@ -530,6 +576,10 @@ func (o *recOp) HandleEventBatch(ctx context.Context, batch []*workerpb.Event) e
 		case *workerpb.Event_CheckpointBarrier:
 			o.events = append(o.events, "SB")
 			o.raw = append(o.raw, "B")
+		case *workerpb.Event_SourceComplete:
+			o.events = append(o.events, "SB")
+			o.raw = append(o.raw, "C")
+			o.complete++
 		default:
 			o.events = append(o.events, "SB")
 			o.raw = append(o.raw, "?")
@@ -612,6 +662,163 @@ func execPipe(c *hx.Case, ops []opJ) (*hx.Result, error) {
 	}
 	term := fmt.Sprintf("PipeC %s %s %s", hx.CoqN(uint64(nops)), hx.CoqList(terms, "pop"), hx.CoqList(streams, "list sev"))
 	return &hx.Result{Term: term, Nontrivial: nw >= 2 && nk >= 1, Tags: tagList("pipe", tags), Observed: obs}, nil
+}
+
+// scripted source reader / keying handler for a real SourceRunner
+type scriptReader struct {
+	connectors.UnimplementedSourceReader
+	mu      sync.Mutex
+	batches [][][]byte
+	next    int
+}
+
+func (s *scriptReader) ReadEvents() ([][]byte, error) {
+	s.mu.Lock()
+	defer s.mu.Unlock()
+	if s.next >= len(s.batches) {
+		return nil, connectors.ErrEndOfInput
+	}
+	b := s.batches[s.next]
+	s.next++
+	if s.next == len(s.batches) {
+		return b, connectors.ErrEndOfInput // the last batch comes with the end-of-input error
+	}
+	return b, nil
+}
+func (s *scriptReader) AssignSplits(splits []*workerpb.SourceSplit) error { return nil }
+func (s *scriptReader) Checkpoint() [][]byte                              { return nil }
+
+type keyingHandler struct{}
+
+func (keyingHandler) ProcessEventBatch(ctx context.Context, req *handlerpb.ProcessEventBatchRequest) (*handlerpb.ProcessEventBatchResponse, error) {
+	return nil, fmt.Errorf("not used")
+}
+
+// KeyEventBatch is slow on purpose: results arrive after the runner has already queued later placeholders
+// (among them the end-of-input watermark), which is the regime where the stamping point matters.
+func (keyingHandler) KeyEventBatch(ctx context.Context, events [][]byte) ([][]*handlerpb.KeyedEvent, error) {
+	time.Sleep(2 * time.Millisecond)
+	out := make([][]*handlerpb.KeyedEvent, len(events))
+	for i, raw := range events {
+		var evs []evJ
+		if err := json.Unmarshal(raw, &evs); err != nil {
+			return nil, err
+		}
+		for _, e := range evs {
+			val := make([]byte, 8)
+			binary.BigEndian.PutUint64(val, uint64(e.ID))
+			out[i] = append(out[i], &handlerpb.KeyedEvent{Key: []byte(e.Key), Value: val, Timestamp: e.Ts.pb()})
+		}
+	}
+	return out, nil
+}
+
+func execRun(c *hx.Case, ops []opJ) (*hx.Result, error) {
+	nops := paramInt(c, "nops", 1)
+	kgc := paramInt(c, "kgc", 8)
+	bs := paramInt(c, "bs", 1)
+	if nops < 1 || kgc < nops {
+		return nil, fmt.Errorf("bad run params")
+	}
+	ks := partitioning.NewKeySpace(kgc, nops)
+	tags := map[string]bool{fmt.Sprintf("nops_%d", nops): true, fmt.Sprintf("batch_%d", bs): true}
+	reader := &scriptReader{}
+	var routed []string
+	nk := 0
+	for _, o := range ops {
+		if o.K != "rb" {
+			return nil, fmt.Errorf("bad op %q for kind run", o.K)
+		}
+		batch := [][]byte{}
+		for _, evs := range o.Raws {
+			if evs == nil {
+				evs = []evJ{}
+			}
+			raw, _ := json.Marshal(evs)
+			batch = append(batch, raw)
+			for _, e := range evs {
+				tsTags(e.Ts, tags)
+				routed = append(routed, fmt.Sprintf("(%s, %s, %s)", hx.CoqN(uint64(ks.RangeIndex([]byte(e.Key)))), hx.CoqN(uint64(e.ID)), e.Ts.coq()))
+				nk++
+			}
+		}
+		reader.batches = append(reader.batches, batch)
+	}
+	recs := map[string]*recOp{}
+	var nodes []*jobpb.NodeIdentity
+	var order []*recOp
+	for i := 0; i < nops; i++ {
+		id := fmt.Sprintf("op%d", i)
+		rc := &recOp{}
+		recs[id] = rc
+		order = append(order, rc)
+		nodes = append(nodes, &jobpb.NodeIdentity{Id: id, Host: "h"})
+	}
+	sr := sourcerunner.New(sourcerunner.NewParams{
+		Host:                "h",
+		UserHandler:         keyingHandler{},
+		Job:                 &workerstest.DummyJob{},
+		OperatorFactory:     func(senderID string, node *jobpb.NodeIdentity) proto.Operator { return recs[node.Id] },
+		SourceReaderFactory: func(*jobconfigpb.Source) connectors.SourceReader { return reader },
+		EventBatching:       batching.EventBatcherParams{MaxSize: bs},
+	})
+	ctx, cancel := context.WithCancel(context.Background())
+	defer cancel()
+	done := make(chan error, 1)
+	go func() { done <- sr.Start(ctx) }()
+	if err := sr.HandleDeploy(ctx, &workerpb.DeploySourceRunnerRequest{Operators: nodes, KeyGroupCount: int32(kgc), Sources: []*jobconfigpb.Source{{}}}); err != nil {
+		return nil, err
+	}
+	if err := sr.HandleAssignSplits([]*workerpb.SourceSplit{{SplitId: "s0", SourceId: "src"}}); err != nil {
+		return nil, err
+	}
+	// the runner broadcasts SourceComplete after the end-of-input watermark and flushes every operator batch
+	deadline := time.Now().Add(15 * time.Second)
+	for {
+		all := true
+		for _, rc := range order {
+			rc.mu.Lock()
+			if rc.complete == 0 {
+				all = false
+			}
+			rc.mu.Unlock()
+		}
+		if all {
+			break
+		}
+		if time.Now().After(deadline) {
+			sr.Stop()
+			return nil, fmt.Errorf("source runner did not deliver SourceComplete to every operator within 15 s")
+		}
+		time.Sleep(200 * time.Microsecond)
+	}
+	sr.Stop()
+	select {
+	case <-done:
+	case <-time.After(5 * time.Second):
+		return nil, fmt.Errorf("source runner did not stop")
+	}
+	streams := make([]string, nops)
+	var obs []any
+	nw := 0
+	for i, rc := range order {
+		rc.mu.Lock()
+		streams[i] = hx.CoqList(rc.events, "sev")
+		obs = append(obs, strings.Join(rc.raw, " "))
+		if i == 0 {
+			for _, e := range rc.raw {
+				if strings.HasPrefix(e, "W") {
+					nw++
+				}
+			}
+		}
+		rc.mu.Unlock()
+	}
+	if nw > 1 {
+		tags["ticker_watermark_seen"] = true
+	}
+	term := fmt.Sprintf("RunC %s %s %s", hx.CoqN(uint64(nops)), hx.CoqList(routed, "N * N * pbts"), hx.CoqList(streams, "list sev"))
+	return &hx.Result{Term: term, Nontrivial: nk >= 2, Tags: tagList("run", tags), Observed: obs}, nil
 }
 
 func srName(i int) string  { return fmt.Sprintf("sr%d", i) }
